@@ -6,14 +6,14 @@ P = {
  'C01': ("`parse_total` (Props/C01): for every valid-UTF-8 input and every option value the model of parse reaches no panic site (every unwrap/expect/index/slice/unreachable!/from_utf8 of tokenizer, builder and final checks is an explicit panic outcome) and exhausts no loop fuel (termination; entity recursion bounded by the loop detector). `tokenizer_total`, `tokens_are_slices`.",
          "native stack bytes, wall time and allocation are runtime facts: observed by isolated child runs at scale (nesting 200 000, billion laughs), not proved"),
  'C02': ("`parsed_wf`: the arena of every parsed document satisfies the whole invariant WF (one parentless root, parents precede children, pre-order ids, prev_sibling/last_child/next_subtree determined by the parent links, no adjacent Text siblings); `parsed_single_root`: exactly one Element and no Text child of the root. `wfArenaB_iff`: the executable form evaluated on the implementation's arena is that invariant.", ""),
- 'C03': ("`tree_mirrors_document`, `every_rendering_gives_the_tree`, `rendering_insensitive`: for EVERY abstract document of the class Spec.Canon.ok (any shape, elements with attributes, comments, text) and every legal choice of white space inside tags, quote characters and <e/> vs <e></e>, parsing the rendering yields exactly the document's tree; `whole_document_mirrors` / `prolog_variation_insensitive`: for every whole document (optional BOM, XML declaration, comments and PIs around an optional DOCTYPE and around the root element, PIs inside it, white space after every top-level item) declaration, DOCTYPE, BOM and white space yield no nodes, prolog/epilog Misc are children of the root node in source order, PI targets and values are the source strings; XML 1.0 name tables; token kinds by region; one token one node.",
-         "names beyond a-z, namespaces and internal-subset variation in the round trip are decided by correspondence with random renderings"),
+ 'C03': ("`tree_mirrors_document`, `every_rendering_gives_the_tree`, `rendering_insensitive`: for EVERY abstract document of the class Spec.Canon.ok (any shape, elements with attributes, comments, text) and every legal choice of white space inside tags, quote characters and <e/> vs <e></e>, parsing the rendering yields exactly the document's tree; `whole_document_mirrors` / `prolog_variation_insensitive`: for every whole document (optional BOM, XML declaration, comments and PIs around an optional DOCTYPE and around the root element, PIs inside it, white space after every top-level item) declaration, DOCTYPE, BOM and white space yield no nodes, prolog/epilog Misc are children of the root node in source order, PI targets and values are the source strings; `whole_document_mirrors_full_repertoire`: the same with names over the full NameStartChar/NameChar ranges and content over all XML characters; XML 1.0 name tables; token kinds by region; one token one node.",
+         "prefixed names / namespace declarations and internal-subset variation in the round trip are decided by correspondence with random renderings"),
  'C04': ("`decode_pieces` (text buffer = XML 2.11 decoding for every sequence of literal runs and references), `text_run_decoded` (the builder's text loop end to end at entity depth 0), CDATA = lineEnds, one text node per run (`parsed_no_adjacent_text` in C02).",
          "runs containing general entity references: correspondence + exhaustive piece enumeration"),
  'C05': ("`attribute_value_normalized` (normalize_attribute end to end at depth 0 = XML 3.3.3), `pushLit_spec`, `charref_kept`, `routing` (xmlns attributes never reach the attribute list, others in source order).",
          "values with nested or repeated entity references: correspondence (one reference between literal parts is proved in C07)"),
- 'C06': ("`pushNs_spec` (deduplicating table, 16-bit index bound), `scoping` (own declaration, else the parent's resolution), `prefix_lookup_is_first_binding`, `element_namespace` / `element_xml_prefix` (every element of every parsed document is in the namespace its prefix resolves to in its own scope; undeclared prefix impossible in an accepted document), attribute namespaces.",
-         "attribute-namespace resolution end to end: correspondence"),
+ 'C06': ("`pushNs_spec` (deduplicating table, 16-bit index bound), `scoping` (own declaration, else the parent's resolution), `prefix_lookup_is_first_binding`, `element_namespace` / `element_xml_prefix` (every element of every parsed document is in the namespace its prefix resolves to in its own scope; undeclared prefix impossible in an accepted document), `attribute_namespaces` (the attribute list of every completed start tag is the non-declaration attributes in source order, each in the namespace its prefix resolves to in the element's own scope; unprefixed: none; every used prefix is declared).",
+         "whole documents against an independent resolver: correspondence"),
  'C07': ("`entity_reference_equals_replacement_text` (for every abstract document and every run of children moved into an internal general entity, the hoisted document parses to exactly the tree of the inline document), `entity_reference_in_attribute_value` (p&name;q normalises to the normalisation of p, the replacement text and q), first declaration wins, a declaration after the first use is found.",
          "nested / repeated references and references adjacent to text are decided by the hoisting special run (implementation vs implementation, and vs model)"),
  'C08': ("85 theorems: the implementation's Char/NameStartChar/NameChar/S tables equal XML 1.0 5th ed. (re-checked against the built crate on every run); `delivered_tokens_lexical`; every rejection rule stated outright in Props/C08Reject (mismatched/stray end tag, entity boundary, no/unclosed root, duplicate attribute, duplicate namespace declaration incl. xml, undeclared prefix, xml/xmlns misuse, undefined/malformed references, '<' in attribute values, '--' in comments, ']]>' in text, detector limits, DtdDetected).",
